@@ -55,8 +55,19 @@ def derivative(poly: PolyLike, *diffvars: Union[ndpoly, str, int]) -> ndpoly:
             (exponent[idx] * coefficient.T).T
             for exponent, coefficient in zip(exponents, poly.coefficients)
         ]
-        exponents[:, idx] -= 1
-        assert not numpy.any(exponents < 0)
+        # terms free of the variable vanish; their (unsigned) exponent must not
+        # be decremented, and they may be retained as zeros by the options.
+        involved = exponents[:, idx] > 0
+        if numpy.any(involved):
+            exponents = exponents[involved]
+            coefficients = [
+                coefficient
+                for coefficient, keep in zip(coefficients, involved)
+                if keep
+            ]
+            exponents[:, idx] -= 1
+        else:
+            exponents, coefficients = exponents[:1] * 0, coefficients[:1]
 
         poly = numpoly.ndpoly.from_attributes(
             exponents=exponents,
